@@ -72,6 +72,17 @@ CHECKS = {
          'finding C03-toplevel-redef, for which Props/C03.lean proves model != spec on the witness. Tie: model = real output on random '
          'programs inside and outside VarOK (error name included), spec = model and an independent Python oracle on those inside.'),
    note=BASE_NOTE + ' Uses of variables in media features and mixin arguments are exercised by C07 and C05; expressions inside values by C04.'),
+ 'C07': dict(category='proof',
+   technique='Lean 4: model of Block.parse media rotation as tree surgery, theorem observation = declarative (media conjunction, selector) semantics by mutual induction; differential correspondence',
+   text=('Theorem C07: for every tree of rules and @media blocks (any depth, comma-list parents, &-rules, @media in @media to any depth) the '
+         'flattened observation of the model of the rotation equals the declarative semantics: each declaration list under the conjunction of '
+         'all enclosing queries and its full selector, a rule\'s unconditional output before its media-conditional output, in source order. '
+         'Corollaries proved: no @media below the top level (C07_top, C07_top_depth), one merged query per rule (C07_media_len), the merged query '
+         'is q1 and q2 ... and qn in nesting order, nothing lost or duplicated (C07_and_*), unconditional before conditional (C07_order*), every '
+         'declaration list exactly once (C07_once, C07_once_observed: permutation of the source groups). Tie: model = real output on a placement '
+         'catalogue x 9 condition forms and on random trees; @media inside mixin bodies (two callers, rule used as mixin, caller inside @media) '
+         'is checked against inlining by the oracle.'),
+   note=BASE_NOTE + ' Comma-separated outer queries combined with a nested @media are outside the condition forms the property lists (the pinned code keeps only the first alternative).'),
 }
 NOT_APPLICABLE = {p: 'check under construction in this round (see DESIGN.md section 10 build order); not claimed yet' for p in
-  ['C01','C05','C07','C10','C11','C12','C13','C14','C15','C16','C18','C19','C20']}
+  ['C01','C05','C10','C11','C12','C13','C14','C15','C16','C18','C19','C20']}
